@@ -4,7 +4,7 @@
     for the weighted draw ([oracle_guard]: the sampled position is below the number
     of unfinished sources, which is what rand guarantees). [srcs <> []]: the callers
     refuse an empty file list. *)
-From TU Require Import Base C07_Model C07_Proofs C07_Specs C07_Top.
+From TU Require Import Base C07_Model C07_Proofs C07_Specs C07_Top C07_Weighted.
 
 (** Termination, every strategy, every oracle in range: the fuel
     (sum of lengths + number of sources + 1 pulls) is never exhausted, no assertion or
@@ -58,6 +58,18 @@ Theorem interleaved_spec : forall (A : Type) (o : oracle) (srcs : list (list A))
   srcs <> [] -> run_gen Interleaved o srcs = Ok (rr srcs).
 Proof. intros A. exact interleaved_spec_l. Qed.
 Print Assumptions interleaved_spec.
+
+(** Weighted: the relational model is exact. With all sources non-empty, the outputs
+    reachable under SOME oracle in range are exactly the tagged interleavings of the
+    sources whose first item comes from source 0 (no draw happens before the first pull).
+    This is the set the correspondence check requires the implementation's stream to lie in. *)
+Theorem weighted_outcomes : forall (A : Type) (srcs : list (list A)) (out : list (nat * A)),
+  srcs <> [] -> existsb is_nil srcs = false ->
+  ((exists o, oracle_guard o /\ run_gen Weighted o srcs = Ok out) <->
+   ((forall j, proj j out = nth j srcs []) /\ Forall (fun p => fst p < length srcs) out /\
+    first_tag0 out = true)).
+Proof. exact weighted_outcomes_spec_l. Qed.
+Print Assumptions weighted_outcomes.
 
 (** The hang of the pinned tree as a theorem about the model of the unrepaired
     interleaved selection: on source lengths [1;3] no amount of fuel (outer: pulls;
